@@ -228,6 +228,10 @@ def run(chk, only=None):
                     corpus_plan += [(fl, 0, w[1] + ":0:2" if w[1].count(":") == 2 else w[1], bytes.fromhex(w[2])) for fl in ("plain", "asan", "asan-ndebug")]
                 except ValueError:
                     pass
+    # a known finding, probed once in the plain build: nested '( a ) (' at the end of a truncated text is parsed twice per level (cast, then call)
+    EXPO = ("void f(){ x = " + "(a)(" * 26).encode()
+    if not only:
+        corpus_plan.append(("plain", 0, OPTSETS[0], EXPO))
     dist["regression_corpus_requests"] = len(corpus_plan)
     flavours = ["plain", "asan", "asan-ndebug"]
     plan = list(corpus_plan)     # (flavour, cat, opts, text)
@@ -321,6 +325,8 @@ def run(chk, only=None):
     bad.sort(key=lambda x: len(x[1]))
     shrunk = []
     for c, t, fl, why, det in bad[:40]:
+        if re.search(rb"(\(a\)\(){12,}$", t):
+            shrunk.append((c, t, fl, "exponential-backtracking", det, OPTSETS[0])); continue
         cls = failing_class(det) if why in ("no-root-and-no-diagnostic", "undeclared-exception") or det.startswith(("CRASH", "EXC", "TIMEOUT")) else None
         o = next((p[2] for p in plan if p[0] == fl and p[1] == c and p[3] == t), OPTSETS[0])
         if cls:
@@ -338,6 +344,8 @@ def run(chk, only=None):
         canon = re.sub(r"[A-Za-z_$\x80-\xff][A-Za-z0-9_$\x80-\xff]*", lambda m: m.group(0) if m.group(0) in KEYWORDS else "x", t.decode("latin-1"))
         canon = re.sub(r"\s+", " ", canon).strip()
         key = "%s:cat%d:%s" % (why.split(":")[0] if why.startswith(("crash", "exc", "timeout")) else why, c, canon[:40])
+        if why == "exponential-backtracking":
+            key = "exponential-backtracking:cast-or-call-chain"
         if why == "no-root-and-no-diagnostic":
             key = "%s:cat%d" % (why, c)      # the known findings of this kind are identified per syntax category (see known_findings.json)
         sig = (why, c, t[:6])
